@@ -55,6 +55,10 @@ def gen_case(D, max_n=8):
             'sched': None, 'sched2': None, 'salt': D.int(0, 20)}
     if retry:
         case['rerun'] = None
+    if sub and items and D.bool(0.5):
+        # rerun the failed task *inside* each failed child sub-workflow
+        # instead of the with-items task itself
+        case['rerun'] = 'inner'
     if case['rerun']:
         for i in range(n):
             if D.bool(0.15):
@@ -130,10 +134,13 @@ def check_case(case, stats=None):
             if oc:
                 return (oc[0], oc[1])
             return ('ok', expected_value(case, idx))
+        if tname == 'f' and fixed.get('f'):
+            return ('ok', 'fixed')
         if tname in ('s', 'f'):
             return ('real', None)
         return ('ok', 'a')
 
+    fixed = {}
     sim.W.outcome = outcome
     sim.create_workflows(text)
     kind, val = sim.start_workflow('wf', inp)
@@ -203,7 +210,50 @@ def check_case(case, stats=None):
         seq = [idx_of[i] for i in order if i in idx_of]
         reordered = seq != sorted(seq)
     did_rerun = False
-    if case.get('rerun') and t_rows and t_rows[0]['state'] == 'ERROR' \
+    if case.get('rerun') == 'inner' and t_rows and \
+            t_rows[0]['state'] == 'ERROR' and not viol:
+        did_rerun = True
+        fixed['f'] = True
+        cl = sim.rpc_clients.get_engine_client()
+        failed_kids = sorted(
+            (k for k in _kids(case, snap, t_rows[0]['id'])
+             if k['state'] == 'ERROR' and k.get('accepted')),
+            key=lambda k: _index(case, k))
+        sched2 = enginerun.Schedule(case.get('sched2'))
+        for k in failed_kids:
+            cur = sim.snapshot()
+            inner = [t for t in cur['task'].values()
+                     if t['wf_ex_id'] == k['id'] and t['state'] == 'ERROR']
+            if not inner:
+                viol.append({'kind': 'failed-child-has-no-failed-task',
+                             'detail': {'index': _index(case, k)}})
+                break
+            r = sim.call(cl.rerun_workflow, inner[0]['id'], reset=True,
+                         skip=False)
+            if r[0] != 'ok':
+                viol.append({'kind': 'rerun-refused',
+                             'detail': str(r[1])[:200]})
+                break
+            now = sim.snapshot()
+            st_now = (now['wf'][k['id']]['state'],
+                      now['task'][t_rows[0]['id']]['state'],
+                      now['wf'][wid]['state'])
+            if st_now != ('RUNNING', 'RUNNING', 'RUNNING'):
+                viol.append({'kind': 'inner-rerun-did-not-revive-parents',
+                             'detail': {'child, with-items task, root':
+                                        st_now}})
+                break
+            enginerun.run_until_quiet(sched2, 120 * (n + 2) + 300,
+                                      observe=observe)
+        if not viol:
+            snap = sim.snapshot()
+            items.clear()
+            viol.extend(_final_checks(case, snap, wid, items, phase=2))
+            root = snap['wf'][wid]
+            if not viol and root['state'] != 'SUCCESS':
+                viol.append({'kind': 'workflow-not-successful-after-inner-'
+                             'reruns', 'detail': {'state': root['state']}})
+    elif case.get('rerun') and t_rows and t_rows[0]['state'] == 'ERROR' \
             and not viol:
         did_rerun = True
         before = {k['id'] for k in _kids(case, snap, t_rows[0]['id'])}
@@ -249,6 +299,8 @@ def check_case(case, stats=None):
             tg.append('zipped')
         if did_rerun:
             tg.append('rerun_' + case['rerun'])
+            if limit is not None and limit < n:
+                tg.append('rerun_with_concurrency_below_n')
         if case.get('retry'):
             tg.append('retry_policy')
             if limit is not None and limit < n:
